@@ -200,8 +200,9 @@ def advance (states : List S) (curNeed : Nat) (ws : List String) : List S :=
     else acc2) acc) [])
 
 /-- spec events of a line (observations of the implementation only) -/
-def evsOf (ws : List String) : List ReadSpec.Ev :=
+def evsOf (curLen : Nat) (ws : List String) : List ReadSpec.Ev :=
   match ws with
+  | ["P", "reader", _, "0", comms] => if readyOf comms "rtimer" == some true && (readyOf comms "rd").isSome then [.tickTaken curLen] else []
   | ["G", "reader", "call", i, op, n, mode, len] =>
       [.call (toNat i) op (needOf op (toNat (getKV [n] "n"))) (getKV [mode] "mode") (toNat (getKV [len] "len"))]
   | "G" :: "reader" :: "ret" :: i :: rest =>
@@ -229,6 +230,7 @@ structure RunSt where
   maxStates : Nat := 1
   active : Bool := false
   curNeed : Nat := 0
+  curLen : Nat := 0          -- bytes buffered, as last written by anybody (observed results of the atomic operations on the length)
 
 def bump (m : List (String × Nat)) (k : String) : List (String × Nat) :=
   if m.any (·.1 == k) then m.map (fun p => if p.1 == k then (p.1, p.2 + 1) else p) else m ++ [(k, 1)]
@@ -279,7 +281,11 @@ def main (path : String) : IO Unit := do
     | tag :: _ :: _ =>
         if rs.active && (tag == "S" || tag == "P" || tag == "C" || tag == "X" || tag == "Y" || tag == "G" || tag == "T" || tag == "K") then
           nLines := nLines + 1
-          rs := { rs with lineNo := rs.lineNo + 1, evs := rs.evs ++ (evsOf ws).toArray }
+          rs := { rs with lineNo := rs.lineNo + 1, evs := rs.evs ++ (evsOf rs.curLen ws).toArray }
+          match ws with
+          | ["S", _, _, "inLen", fn, a, _, r] =>
+              if opOf fn == "add" then rs := { rs with curLen := toNat r } else if opOf fn == "store" then rs := { rs with curLen := toNat a }
+          | _ => pure ()
           match ws with
           | ["G", "reader", "call", _, op, n, mode, _] =>
               rs := { rs with curNeed := needOf op (toNat (getKV [n] "n")) }
